@@ -24,6 +24,61 @@ Open Scope string_scope.
 
 Inductive ictl := INone | IBrk (k : nat) | ICnt (k : nat) | IRet (v : value) | IThrow (v : value).
 
+(* ---------- named arguments (CallExpression.GetValue -> bindNamedCall, /repo 023935e, 79da08f) ----------
+   The code keeps one cell per parameter (bound[] + the callee context): positional arguments fill the
+   leading cells in order; a named argument scans the parameter list for the first parameter of that
+   name (its target), and is an Error when there is none ("Unknown named parameter") or when the target
+   cell is already filled, by a positional or an earlier named argument ("overwrites previous
+   argument"); the cells still empty at the end take the parameter's default, and a parameter without
+   one is an ArgumentCountError. *)
+Fixpoint pindex (x : string) (ps : list (string * option value)) : option nat :=
+  match ps with
+  | [] => None
+  | (y, _) :: r => if String.eqb x y then Some O else option_map S (pindex x r)
+  end.
+(* the cells after the positional arguments *)
+Fixpoint pos_cells (ps : list (string * option value)) (vs : list value) : list (option value) :=
+  match ps with
+  | [] => []
+  | _ :: r => match vs with v :: vr => Some v :: pos_cells r vr | [] => None :: pos_cells r [] end
+  end.
+(* fill cell i (the check before it guarantees the cell is empty; a filled cell is left alone) *)
+Fixpoint set_cell (i : nat) (v : value) (cs : list (option value)) : list (option value) :=
+  match cs with
+  | [] => []
+  | c :: r =>
+      match i with
+      | O => (match c with None => Some v | Some _ => c end) :: r
+      | S j => c :: set_cell j v r
+      end
+  end.
+Definition bind_named (ps : list (string * option value)) (cs : list (option value)) (nvs : list (string * value))
+  : list (option value) :=
+  fold_left (fun cs (xv : string * value) =>
+               match pindex (fst xv) ps with Some i => set_cell i (snd xv) cs | None => cs end) nvs cs.
+(* may the named argument x be bound, after the positional values vs and the named ones in seen? *)
+Definition named_ok_impl (ps : list (string * option value)) (vs : list value) (x : string) (seen : list (string * value)) : bool :=
+  match pindex x ps with
+  | None => false                                                             (* Unknown named parameter *)
+  | Some i =>
+      match nth_error (bind_named ps (pos_cells ps vs) seen) i with
+      | Some None => true
+      | _ => false                                                            (* overwrites previous argument *)
+      end
+  end.
+(* the remaining cells take the defaults; the result is the full argument list of the callee *)
+Fixpoint fill_defaults (ps : list (string * option value)) (cs : list (option value)) : option (list value) :=
+  match ps, cs with
+  | (_, d) :: r, c :: cr =>
+      match (match c with Some v => Some v | None => d end), fill_defaults r cr with
+      | Some v, Some l => Some (v :: l)
+      | _, _ => None                                                          (* Argument #i not passed *)
+      end
+  | _, _ => Some []
+  end.
+Definition arrange_impl (ps : list (string * option value)) (vs : list value) (nvs : list (string * value)) : option (list value) :=
+  fill_defaults ps (bind_named ps (pos_cells ps vs) nvs).
+
 (* ---------- expressions (structural; calls go through [callf]) ---------- *)
 
 (* fused_assign.go readIdx / preExtract: an operand that is a variable currently holding an int,
@@ -239,6 +294,29 @@ Fixpoint ieval (e : expr) (fr : frame) (g : glob) {struct e} : res eout :=
       | Res (EV v) fr g => ieval_arms v m fr g
       | r => r
       end
+  | ECallN f a xs b =>                                (* positional, then named in source order; value first, then the name check *)
+      match find_fun funs f with
+      | None => Res (EX (err "undefined function")) fr g
+      | Some d =>
+          match ieval_args a fr g with
+          | Res (inl vs) fr g =>
+              match ieval_nargs (named_ok_impl (fparams d) vs) xs [] b fr g with
+              | Res (inl nvs) fr g =>
+                  match arrange_impl (fparams d) vs nvs with
+                  | Some full =>
+                      match callf (CFun f) full g with
+                      | Some (o, g') => Res o fr g'
+                      | None => Fuel
+                      end
+                  | None => Res (EX (err "argument not passed")) fr g
+                  end
+              | Res (inr x) fr g => Res (EX x) fr g
+              | Fuel => Fuel
+              end
+          | Res (inr x) fr g => Res (EX x) fr g
+          | Fuel => Fuel
+          end
+      end
   end
 with ieval_args (a : args) (fr : frame) (g : glob) {struct a} : res (list value + value) :=
   match a with
@@ -276,6 +354,25 @@ with ieval_conds (v : value) (c : args) (fr : frame) (g : glob) {struct c} : res
       | Res (EV w) fr g => if same_value v w then Res (inl true) fr g else ieval_conds v r fr g
       | Res (EX x) fr g => Res (inr x) fr g
       | Fuel => Fuel
+      end
+  end
+(* the named arguments in source order: the value is computed, then the name is checked against what is
+   bound so far ([ok]); the first offending name ends the call with an Error *)
+with ieval_nargs (ok : string -> list (string * value) -> bool) (xs : list string) (seen : list (string * value))
+                 (b : args) (fr : frame) (g : glob) {struct b} : res (list (string * value) + value) :=
+  match b with
+  | ANil => Res (inl seen) fr g
+  | ACons e r =>
+      match xs with
+      | [] => Res (inl seen) fr g
+      | x :: xr =>
+          match ieval e fr g with
+          | Res (EV v) fr g =>
+              if ok x seen then ieval_nargs ok xr (seen ++ [(x, v)])%list r fr g
+              else Res (inr (err "named parameter")) fr g
+          | Res (EX w) fr g => Res (inr w) fr g
+          | Fuel => Fuel
+          end
       end
   end.
 
